@@ -49,7 +49,7 @@ CLAIMED = {
              technique="exhaustive enumeration of projection chains and store placements + stateless model checking for the concurrent clause", ref="§7 C17"),
  "C18": dict(text="Fault enumeration: every point where user code runs inside the library is chosen as the panic point (rcu closure on attempt 1-3 with retries forced by a competing writer under the engine; closure after creating its result; destructor of the value replaced by store; destructor of the rejected new value / by-value current guard of compare_and_swap; destructor run by the last guard; destructor of a helped reader's candidate inside load under the engine; Map projection) x guards held x strategy. Afterwards: container value legitimate, counts exact, slots empty, follow-up operations behave. Two defects found and fixed (/repo 93929e1).",
              technique="exhaustive fault-point enumeration, sequentially and inside bounded exhaustive schedule exploration of the implementation", ref="§7 C18", category="model_checking"),
- "C19": dict(text="Complete truth table of `W: Send`, `W: Sync` for 15 wrapper types x 5 pointer kinds x 4 pointee Send/Sync combinations (300 instantiations), evaluated as compile-time constants in one rustc run against the current sources; oracle: W Send => P Send, W Sync => P Sync (and P Send for containers), P Send+Sync => W Send+Sync.",
+ "C19": dict(text="Complete truth table of `W: Send`, `W: Sync` for 16 wrapper types x 5 pointer kinds x 4 pointee Send/Sync combinations plus DynGuard<X> over an erased guard of another pointer type (328 instantiations), evaluated as compile-time constants in one rustc run against the current sources; oracle: W Send => P Send, W Sync => P Sync (and P Send for containers), P Send+Sync => W Send+Sync.",
              technique="exhaustive enumeration of a finite space of generic instantiations; the deciding step per instance is rustc's trait resolution, not an execution", ref="§7 C19",
              note="Trusted base: rustc's auto-trait resolution; the instantiation list in /verif/typecheck/src/main.rs. This is configuration-space enumeration, not schedule exploration."),
  "C20": dict(text="Every value of a grammar {unit, bool, u8, i64, String, Option, Vec, struct} up to nesting 1 (quick) / 2 (thorough) x {ArcSwap, ArcSwapOption Some/None} x two strategies: the container's JSON equals its value's JSON, deserializing gives a container whose value equals the input with exactly one reference (plus the probing handle), round trip preserves the value; serde_test token streams for six shapes.",
